@@ -325,6 +325,7 @@ func (p *Prog) lockHeld(fn *ssa.Function, mutexField string) map[ssa.Instruction
 	}
 	held := map[ssa.Instruction]bool{}
 	seenInstr := map[ssa.Instruction]bool{}
+	deferredUnlock := map[*ssa.Function]bool{}
 	// flow computes the lock state through g entered with state entry (0 not
 	// held, 1 held) and returns the state at its normal returns (must: held
 	// only if held at every return). Helpers are flowed through in place.
@@ -352,6 +353,12 @@ func (p *Prog) lockHeld(fn *ssa.Function, mutexField string) map[ssa.Instruction
 					}
 					held[i] = h
 					seenInstr[i] = true
+					if d, isD := i.(*ssa.Defer); isD && depth > 0 && p.calleeDesc(d) == "sync.Mutex.Unlock" && len(d.Call.Args) > 0 && isMu(d.Call.Args[0]) {
+						deferredUnlock[g] = true // a helper's deferred Unlock takes effect when the helper returns
+					}
+					if _, isRet := i.(*ssa.Return); isRet && depth > 0 && deferredUnlock[g] {
+						st = 0
+					}
 					switch kind(i) {
 					case 1:
 						st = 1
